@@ -23,7 +23,7 @@ Node kinds
   ("multi", (o, ...)) ("upd", base, ((path, origin), ...))
   ("cycle",) ("unknown", text)
 """
-from .facts import place_str
+from .facts import known_consts, place_str
 from .cfg import cfg_of, _idx
 
 VP_TRAIT_METHODS = {
@@ -194,6 +194,16 @@ class Prov:
                     if pf is not None:
                         return self.local(pf, 0)
                     return ("item", "%s::{promoted#%s}" % (op["item"], op["promoted"]))
+                # a literal constant introduced after the rule tables were confirmed (`const PREFIX: &[u8] = b"..";`)
+                # is the literal it names; the known ones keep their name (rules refer to them by it)
+                kc = known_consts()
+                c = self.facts.consts.get(op["item"])
+                if kc and c is not None and op["item"] not in kc and "value" in c and not c.get("calls"):
+                    ty = c.get("ty", "")
+                    if ty.endswith("str"):
+                        return ("const", "str", c["value"])
+                    if "[u8" in ty:
+                        return ("const", "bytes", c["value"])
                 return ("item", op["item"])
             text = op.get("text", "")
             if text.startswith("const "):
